@@ -176,6 +176,13 @@ def run(ctx):
             and isinstance(idna_call.args[0], ast.Name) and any(
                 isinstance(v, ast.Call) and dotted(v.func) == 'normalize_ipv4_address'
                 for v, k, s in pdefs.get(idna_call.args[0].id, []) if v is not None)
+    if okord:
+        # the IPv4 attempt is unconditional within the non-IPv6 branch (only the `[`-literal dispatch may guard it)
+        pmn = U.parents(pn.node)
+        v4call = [c for c in U.calls(pn.node) if dotted(c.func) == 'normalize_ipv4_address'][0]
+        for a in U.ancestors(v4call, pmn):
+            if isinstance(a, ast.If) and not ("startswith('[')" in norm_text(a.test) or 'startswith("[")' in norm_text(a.test)):
+                okord = False
     ck.expect(okord, 'C10-D1', pn.qual, 'IPv4 canonicalisation -> IDNA/lower -> forbidden-character check -> return',
               'host normalisation steps are missing or out of order (%s)' % pos, pn.loc())
     nh = repo.func(URL + ':normalize_hostname')
